@@ -9,6 +9,10 @@
  2. TLC generates scripts (spec/AskGen.tla, seeded simulation with a history variable).
  3. harness/cmd/askreplay executes them on the real stacks (handler gates, scripted Close / context ends,
     for mbapp the driver carries every fragment) plus seeded concurrent workloads, and records the ledger.
+    Requests ARRIVE BEFORE anybody serves: the destination has no standing ServeAsk caller in the scripted
+    family (`serve` steps issue one ServeAsk call each, after any number of `ask` / `arrive` steps), and in
+    every second concurrent workload the applications start serving 30 ms after the askers started; requests
+    of equal length / shorter after longer; mbapp nodes with four and with one receive worker.
  4. TLC judges the ledger (spec/AskTrace.tla): VIOL lines are verdicts on the real code, DRIFT lines are not.
 """
 import json
@@ -24,7 +28,7 @@ PROPERTIES = ["C11"]
 MANIFEST = {
     "C11": dict(level="model_checking",
                 technique="TLA+ model of the three ask transports (AskHub rendezvous, stream per ask, mbapp fragments with the in-flight table) checked by TLC; TLC-generated scripts with handler gates, Close points and context ends replayed on 13 real stacks plus seeded concurrent workloads; ledger judged by TLC",
-                text="TLC checks OwnAnswer (a successful Ask returns the bytes its own handler invocation produced; the handler saw this request and the asker's address) and FailureIsError (negative handler result, destination closed before the call, response longer than the buffer, context ended => error, by the deadline) on every interleaving of 2 askers x 2 servers with every handler result class, CloseDst and Timeout at every step, reordered and duplicated multi-part mbapp replies and colliding counters. Scripts generated from the same model drive vswarm/memswarm, wlswarm, multiswarm, the five p2pmux framings, quicswarm on memswarm, sshswarm on 127.0.0.1 and mbapp over a harness-owned datagram network (the driver delivers every fragment in the scripted order, sets colliding counters through a verif hook), with unique request and response payloads; seeded concurrent workloads (c askers, servers closing mid-run, expiring contexts) exercise the same stacks free-running. TLC evaluates the ledger: every AskRet(ok, n, digest) must match a handler invocation for the same request id.",
+                text="TLC checks OwnAnswer (a successful Ask returns the bytes its own handler invocation produced; the handler saw this request and the asker's address) and FailureIsError (negative handler result, destination closed before the call, response longer than the buffer, context ended => error, by the deadline) on every interleaving of 2 askers x 2 servers with every handler result class, CloseDst and Timeout at every step, reordered and duplicated multi-part mbapp replies and colliding counters. Scripts generated from the same model drive vswarm/memswarm, wlswarm, multiswarm, the five p2pmux framings, quicswarm on memswarm, sshswarm on 127.0.0.1 and mbapp over a harness-owned datagram network (the driver delivers every fragment in the scripted order, sets colliding counters through a verif hook), with unique request and response payloads, any number of asks committed at a destination before its application serves the first one (requests of equal or decreasing length, mbapp with one and with four receive workers); seeded concurrent workloads (c askers, servers closing mid-run, expiring contexts) exercise the same stacks free-running. TLC evaluates the ledger: every AskRet(ok, n, digest) must match a handler invocation for the same request id.",
                 note="Bounds: 2 askers x 2 servers x 2-3 asks in the model. An Ask still blocked 1 s after its context ended is re-measured to 3 s, discarded if the harness' own heartbeat was not scheduled for a third of that, and the behaviour is executed a second time before it is believed (re-observations of a recorded finding excepted). Errors without a cause are DRIFT, not violations (C11 does not promise success).",
                 ref="5 (C11), 3.8, Appendix B"),
 }
@@ -36,10 +40,10 @@ GEN = {
     "hub_ser": ("AskGen_hub_ser.cfg", HUB_SER),
     "stream_par": ("AskGen_stream_par.cfg", ["quicswarm"]),
     "stream_ser": ("AskGen_stream_ser.cfg", ["sshswarm"]),
-    "mbapp": ("AskGen_mbapp.cfg", ["mbapp"]),
+    "mbapp": ("AskGen_mbapp.cfg", ["mbapp", "mbapp-w1"]),   # four receive workers / one receive worker per node
 }
 CONC_STACKS = ["vswarm", "wlswarm", "multiswarm", "mux-string", "mux-varint", "mux-u16", "mux-u32", "mux-u64",
-               "quicswarm", "sshswarm", "mbapp-loop", "mbapp-mem"]
+               "quicswarm", "sshswarm", "mbapp-loop", "mbapp-mem", "mbapp-mem-w1"]
 # stacks whose Ask runs the AskHub rendezvous in the asker's goroutine (one root cause for deadline-in-handler)
 ASKHUB_STACKS = set(HUB_PAR + HUB_SER)
 
@@ -47,10 +51,10 @@ TIERS = {
     "quick": dict(
         mc=[("hub", "Ask_hub.cfg", 3), ("stream-serial", "Ask_stream_serial.cfg", 3), ("mbapp", "Ask_mbapp.cfg", 4),
             ("mbapp-keys", "Ask_mbapp_keys.cfg", 4)],
-        mustfail=[("bugF09", "Ask_mbapp_bugF09.cfg"), ("weakDst", "Ask_mbapp_weakDst.cfg")],
+        mustfail=[("bugF09", "Ask_mbapp_bugF09.cfg"), ("weakDst", "Ask_mbapp_weakDst.cfg"), ("bugAlias", "Ask_mbapp_bugAlias.cfg")],
         scripted={"vswarm": 60, "wlswarm": 30, "multiswarm": 30, "mux-string": 25, "mux-varint": 25, "mux-u16": 25,
-                  "mux-u32": 25, "mux-u64": 25, "quicswarm": 40, "sshswarm": 40, "mbapp": 160},
-        conc=dict(reps=1, nodes_a=2, nodes_s=2, askers=6, asks=30), par=12, inhandler=2),
+                  "mux-u32": 25, "mux-u64": 25, "quicswarm": 40, "sshswarm": 40, "mbapp": 90, "mbapp-w1": 80},
+        conc=dict(reps=2, nodes_a=2, nodes_s=2, askers=6, asks=20), par=12, inhandler=2),
     "thorough": dict(
         mc=[("hub", "Ask_hub.cfg", 3), ("hub-serial", "Ask_hub_serial.cfg", 3), ("stream", "Ask_stream.cfg", 3),
             ("stream-serial", "Ask_stream_serial.cfg", 3), ("mbapp", "Ask_mbapp.cfg", 4), ("mbapp-keys", "Ask_mbapp_keys.cfg", 4),
@@ -58,11 +62,11 @@ TIERS = {
             ("hub-deep", "Ask_hub_deep.cfg", 4), ("stream-deep", "Ask_stream_deep.cfg", 4),
             ("mbapp-deep", "Ask_mbapp_deep.cfg", 4), ("mbapp-deep3", "Ask_mbapp_deep3.cfg", 4)],
         mustfail=[("bugF02", "Ask_hub_bugF02.cfg"), ("bugF09", "Ask_mbapp_bugF09.cfg"), ("bugF10", "Ask_stream_bugF10.cfg"),
-                  ("bugF11", "Ask_stream_bugF11.cfg"), ("bugNeg", "Ask_hub_bugNeg.cfg"), ("weakOT", "Ask_mbapp_weakOT.cfg"),
+                  ("bugF11", "Ask_stream_bugF11.cfg"), ("bugNeg", "Ask_hub_bugNeg.cfg"), ("weakOT", "Ask_mbapp_weakOT.cfg"), ("bugAlias-mbapp", "Ask_mbapp_bugAlias.cfg"), ("bugAlias-stream", "Ask_stream_bugAlias.cfg"),
                   ("weakDst", "Ask_mbapp_weakDst.cfg")],
         scripted={"vswarm": 300, "wlswarm": 150, "multiswarm": 150, "mux-string": 120, "mux-varint": 120, "mux-u16": 120,
-                  "mux-u32": 120, "mux-u64": 120, "quicswarm": 200, "sshswarm": 200, "mbapp": 900},
-        conc=dict(reps=2, nodes_a=4, nodes_s=4, askers=16, asks=40), par=12, inhandler=4),
+                  "mux-u32": 120, "mux-u64": 120, "quicswarm": 200, "sshswarm": 200, "mbapp": 500, "mbapp-w1": 400},
+        conc=dict(reps=4, nodes_a=4, nodes_s=4, askers=16, asks=25), par=12, inhandler=4),
 }
 
 
@@ -124,7 +128,11 @@ def plan(tier, gen_behs):
             askers = c["askers"] if st != "sshswarm" else min(c["askers"], 8)
             out.append(dict(id=bid, family="concurrent", stack=st, seed=core.seed() * 100 + rep, gen="concurrent", hist=[],
                             conc=dict(nodes_a=c["nodes_a"], nodes_s=c["nodes_s"], askers=askers, asks=c["asks"],
-                                      close=(rep % 2 == 0), cancel_pc=rnd.choice([10, 20]), delay_pc=rnd.choice([20, 40]))))
+                                      close=(rep % 2 == 0), cancel_pc=rnd.choice([10, 20]), delay_pc=rnd.choice([20, 40]),
+                                      # odd repetitions: the requests ARRIVE BEFORE anybody serves (the applications call
+                                      # ServeAsk only 30 ms after the askers started), requests of equal length
+                                      serve_delay_ms=(30 if rep % 2 == 1 else 0),
+                                      len_policy=("equal" if rep % 2 == 1 else ""))))
     return out
 
 
